@@ -10,7 +10,9 @@ Workload : seeded well-formed FlowIR documents (checks/_c11_gen.py: 2-7 componen
            is loaded for a second platform whose variables hold or override them) and, per document, EVERY
            applicable single-fault mutant: drop a referenced component,
            rename a reference, add a back edge / self reference, duplicate an id, misspell or add a key at
-           every level, give every present (and two absent) option(s) a value of the wrong type, remove a
+           every level, give every present (and two absent) option(s) a value of the wrong type (per documented
+           type every kind of value that is not acceptable for it: float with a fraction / text / list / dictionary
+           for an integer, ... - in the body, the override of the loaded platform or a blueprint), remove a
            used variable that one layer defines (plain, array and array-index variables), rename the array /
            the index variable at the place of use; the reference faults also through variables: a variable
            whose value names a missing producer, a spelled-out reference replaced by one that reaches the
@@ -51,6 +53,7 @@ PROP = "C11"
 K_BOOLWORD = "C11:aggregate-word-accepted"
 K_RAWCTOR = "C11:dict-api-concrete-constructor-raw-exception"
 K_VARCYCLE = "C11:cycle-through-variable-spelled-reference"
+K_REPLFLOAT = "C11:replicate-fractional-float-truncated"
 
 
 from checks import _c11_watchdog as WD  # noqa: E402
@@ -331,6 +334,13 @@ def classify(mut, out_by_api, case=None):
             and mut["value"].lower() not in ("true", "false", "yes", "no", "y", "n", "0", "1", "")
             and all(o["status"] == "accepted" for o in out_by_api.values())):
         return K_BOOLWORD
+    # workflowAttributes.replicate is read by the replication step itself (FlowIR.apply_replicate: int(value)), which
+    # truncates a float with a fractional part >= 1 (2.5 -> 2 replicas) before any schema sees it
+    if (mut["kind"] == "wrong-type" and mut.get("class") == "nonintegral-float-for-int"
+            and path == ["workflowAttributes", "replicate"] and mut.get("location") == "body"
+            and isinstance(mut.get("value"), float) and mut["value"] != int(mut["value"]) and mut["value"] >= 1
+            and all(o["status"] == "accepted" for o in out_by_api.values())):
+        return K_REPLFLOAT
     # dictionary API only: FlowIRConcrete(...) is constructed by graphFromFlowIR outside any error collection,
     # so a non-FlowIR exception raised while it indexes a wrongly typed 'references' / 'stage' escapes as is
     o = out_by_api.get("dict")
@@ -360,8 +370,9 @@ def base_key(base):
 def mut_key(m, base):
     where = m["where"]
     opt = ".".join(str(x) for x in where[1:]) if m["kind"] in ("wrong-type", "misspelt-key", "extra-key") else ""
-    return "m|%s|%s|%s|c%d|r%d|%s|p%d" % (m["kind"], m.get("class"), opt, len(base["doc"]["components"]),
-                                          int(base["replicated"]), m.get("spell"), int(bool(base.get("platform"))))
+    return "m|%s|%s|%s|c%d|r%d|%s|p%d|%s" % (m["kind"], m.get("class"), opt, len(base["doc"]["components"]),
+                                             int(base["replicated"]), m.get("spell"), int(bool(base.get("platform"))),
+                                             m.get("location"))
 
 
 ALWAYS_FILE_API = ("duplicate-id", "remove-index-variable", "remove-array-variable", "rename-index-at-use",
@@ -451,13 +462,20 @@ def run_job(job, w):
                 w.count("mutant_cases")
                 w.count("mutant_%s_api" % api)
                 w.count("mutant_" + m["kind"])
+                if m["kind"] == "wrong-type":
+                    w.count("mistype_%s" % m.get("class"))
+                    w.count("mistype_written_in_%s" % m.get("location"))
+                    if m.get("class") == "nonintegral-float-for-int" and m.get("location") == "body":
+                        w.count("mistype_nonintegral-float-for-int_in_body")
                 if spelled_fault:
                     w.count("mutant_fault_at_variable_spelled_reference")
                     w.count("mutant_fault_at_variable_spelled_reference_%s_api" % api)
                 bad = judge_mutant(out, api)
                 if bad:
                     case = {"api": api, "doc": m["doc"], "files": base["files"], "manifest": {}, "platform": platform}
-                    w.violation("mutant %s/%s at %s: %s" % (m["kind"], m.get("class"), "/".join(map(str, m["where"])), bad),
+                    at = "/".join(map(str, m["where"])) + (" = %r (written in the %s)" % (m.get("value"), m["location"])
+                                                             if m.get("location") else "")
+                    w.violation("mutant %s/%s at %s: %s" % (m["kind"], m.get("class"), at, bad),
                                 {"kind": "mutant", "mutation": mrec, "case": case,
                                  "outcome": out, "outcomes_all_apis": outs},
                                 classify(mrec, outs if api != "dict" or out["status"] != "other" else {"dict": out}, case))
@@ -533,10 +551,21 @@ def main():
                        "faults inside the 'override' section of a platform that is not the one being loaded are recorded "
                        "as information only (info_override-unselected-platform-* counters): a replicated load validates "
                        "the instance of the selected platform, the statement does not say which platform's options count",
-                       "wrongly typed values are restricted to values that can never be read as the documented type "
-                       "(a word for a number/boolean, a list or dictionary for a scalar, a scalar for a list, an "
-                       "unknown constant for an enumeration); numeric strings, floats for ints, ints for strings are "
-                       "not generated because the loader documents conversions for them",
+                       "wrongly typed values: the verdict per (documented option type, kind of written value) is fixed in "
+                       "checks/_c11_gen.py TYPE_VERDICTS from the documented types (FlowIR component schema / DSL model), "
+                       "never from the loader's converter. Judged (must be rejected): integer option <- float with a "
+                       "fraction, non-integral numeric text, word, list, dictionary; number <- word, list, dictionary; "
+                       "boolean <- float with a fraction, non-boolean word, list, dictionary; string <- list, dictionary; "
+                       "enumeration <- unknown constant, integer, float, list, dictionary; list <- any scalar, dictionary",
+                       "NOT judged, only recorded in info_mistype_<kind>-for-<type>_{body,layer}_<outcome> counters, because "
+                       "the loader documents / customarily performs a conversion and the statement does not decide: "
+                       "integer <- integral float (2.0), boolean (true), numeric text ('2'), null; number <- boolean, "
+                       "numeric text, null; boolean <- 0/1/2, 1.0, 'yes'/'False', numeric text, null; string <- number, "
+                       "boolean, null; enumeration <- boolean (YAML reads 'no' as false), null; list <- null; memory <- "
+                       "boolean, float; a float for kubernetes.gracePeriod (schema: integer, DSL model: float)",
+                       "a mistyped option is written in the component body, in the component's override of the platform "
+                       "being loaded, or (only for an option the body does not set) in a blueprint global/stage section of "
+                       "the loaded or the default platform; base documents themselves still carry options in bodies only",
                        "misspelt / extra keys are generated inside components only (top-level unknown sections of the "
                        "dictionary API are ignored by design of FlowIRConcrete and are not an 'option key')",
                        "a reference renamed only inside command.arguments is not generated: undeclared text is not a reference",
@@ -580,6 +609,16 @@ def main():
     for kind in ("remove-index-variable", "remove-array-variable", "rename-index-at-use", "rename-array-at-use"):
         c.floor("mutant_" + kind, 300 if thorough else 40)
     c.floor("base_with_array_variables", 300 if thorough else 60)
+    # classes of mistyped options (documented type <- kind of value), and where they are written
+    for cls_, q, t in (("nonintegral-float-for-int", 80, 1500), ("nonintegral-numeric-string-for-int", 60, 1200),
+                       ("word-for-int", 60, 1200), ("nonintegral-float-for-bool", 25, 500), ("word-for-bool", 40, 800),
+                       ("nonintegral-float-for-enum", 20, 400), ("int-for-enum", 15, 300), ("list-for-scalar", 300, 5000),
+                       ("dict-for-scalar", 200, 3000), ("scalar-for-list", 100, 1500), ("word-for-number", 150, 3000)):
+        c.floor("mistype_" + cls_, t if thorough else q)
+    c.floor("mistype_nonintegral-float-for-int_in_body", 400 if thorough else 40)
+    c.floor("mistype_written_in_override", 3000 if thorough else 200)
+    c.floor("mistype_written_in_blueprint-global", 500 if thorough else 40)
+    c.floor("mistype_written_in_blueprint-stage", 1000 if thorough else 80)
     # references spelled through variables
     c.floor("base_with_variable_spelled_references", 300 if thorough else 50)
     c.floor("base_loaded_for_a_non_default_platform", 100 if thorough else 10)
